@@ -695,7 +695,7 @@ theorem firstLineSegment_term (lb : Nat → Nat → Bool) : ∀ (l : List Cell) 
 /-- One row per line: while the rows fit below `Max.Height`, the row loop writes line `k` to row
 `row + k`, and what it writes is `drawRow` of that line. -/
 theorem drawRows_spec (maxW maxH : UInt16) : ∀ (ls : List (List Cell)) (row : UInt16),
-    row.toNat + ls.length ≤ maxH.toNat + 1 →
+    row.toNat + ls.length ≤ maxH.toNat →
     (drawRows maxW maxH row ls).map (·.2) = ls.map (drawRow maxW 0) ∧
     (drawRows maxW maxH row ls).map (·.1.toNat) = List.range' row.toNat ls.length := by
   intro ls
@@ -704,21 +704,17 @@ theorem drawRows_spec (maxW maxH : UInt16) : ∀ (ls : List (List Cell)) (row : 
   | cons l ls ih =>
     intro row h
     simp only [List.length_cons] at h
-    have hle : ¬ row > maxH := by
-      rw [GT.gt, UInt16.lt_iff_toNat_lt]; omega
+    have hm := UInt16.toNat_lt maxH
+    have hle : ¬ row ≥ maxH := by
+      rw [ge_iff_le, UInt16.le_iff_toNat_le]; omega
     unfold drawRows
     simp only [hle, ↓reduceIte, List.map_cons, List.length_cons, List.range'_succ]
-    cases ls with
-    | nil => simp [drawRows]
-    | cons l2 ls2 =>
-      simp only [List.length_cons] at h
-      have hm := UInt16.toNat_lt maxH
-      have hrow : (row + 1).toNat = row.toNat + 1 := by
-        rw [UInt16.toNat_add, UInt16.toNat_one]
-        omega
-      have := ih (row + 1) (by rw [hrow]; simp only [List.length_cons]; omega)
-      rw [hrow] at this
-      exact ⟨by rw [this.1], by rw [this.2]⟩
+    have hrow : (row + 1).toNat = row.toNat + 1 := by
+      rw [UInt16.toNat_add, UInt16.toNat_one]
+      omega
+    have := ih (row + 1) (by rw [hrow]; omega)
+    rw [hrow] at this
+    exact ⟨by rw [this.1], by rw [this.2]⟩
 
 /-- Columns of one row: cells of positive width that fit below `Max.Width` (and below 2^16) are all
 written, each at the column equal to the display width of the cells before it. -/
